@@ -1,6 +1,7 @@
 #!/bin/sh
 # Development aid: run every quick check (optionally with VERIF_SEED) and print one line per property.
 cd "$(dirname "$0")/.." || exit 2
+mkdir -p out
 bad=0
 for id in C01 C02 C03 C04 C05 C06 C07 C08 C09 C10 C11 C12 C13 C14 C15 C16 C17 C18 C19 C20; do
   ./check $id quick > out/allquick-$id.log 2>&1; rc=$?
